@@ -632,6 +632,8 @@ static void
 ldb_maybe_ignore_error(const ldb_t *db, int *status) {
   if (*status == LDB_OK || db->options.paranoid_checks) {
     ; /* No change needed. */
+  } else if (*status != LDB_CORRUPTION) {
+    ; /* Only corrupt data is tolerated, not a failing file system. */
   } else {
     ldb_log(db->options.info_log, "Ignoring error %s",
                                   ldb_strerror(*status));
@@ -820,6 +822,12 @@ report_corruption(ldb_reporter_t *report, size_t bytes, int status) {
 
   if (report->status != NULL && *report->status == LDB_OK)
     *report->status = status;
+
+  /* A failed read is not corruption: the records that follow were
+     acknowledged and must not be dropped just because
+     paranoid_checks is off. */
+  if (status != LDB_CORRUPTION && *report->io_status == LDB_OK)
+    *report->io_status = status;
 }
 
 static int
@@ -838,6 +846,7 @@ ldb_recover_log_file(ldb_t *db, uint64_t log_number,
   int compactions = 0;
   ldb_memtable_t *mem = NULL;
   uint64_t valid_size = 0;
+  int io_rc = LDB_OK;
   ldb_reader_t reader;
 
   ldb_mutex_assert_held(&db->mutex);
@@ -856,6 +865,7 @@ ldb_recover_log_file(ldb_t *db, uint64_t log_number,
   /* Create the log reader. */
   reporter.fname = fname;
   reporter.status = (db->options.paranoid_checks ? &rc : NULL);
+  reporter.io_status = &io_rc;
   reporter.info_log = db->options.info_log;
   reporter.corruption = report_corruption;
 
@@ -923,6 +933,9 @@ ldb_recover_log_file(ldb_t *db, uint64_t log_number,
   ldb_batch_clear(&batch);
   ldb_reader_clear(&reader);
   ldb_rfile_destroy(file);
+
+  if (rc == LDB_OK)
+    rc = io_rc;
 
   /* See if we should keep reusing the last log file. */
   if (rc == LDB_OK && db->options.reuse_logs && last_log && compactions == 0) {
